@@ -39,6 +39,9 @@ def _c(nodes, edges, phi, rs):
 
 def corpus():
     return [_c(c["nodes"], c["edges"], c["phi"], c["rs"]) for c in _CORPUS] + [
+        # nx.MultiGraph: two parallel bonds 0-1, the first dropped (9/10 > 1/2), the second kept: S = 1
+        dict(_c([0, 1], [[0, 1], [0, 1]], [1, 2], [[9, 10], [1, 10]]), multi=1),
+        dict(_c([0, 1, 2], [[0, 1], [1, 2], [1, 2], [0, 1]], [1, 2], [[9, 10], [9, 10], [1, 10], [1, 10]]), multi=1),
         # second call on the same object after the graph grew (stale-cache regression)
         {"nodes": [0, 1, 2, 3], "edges": [[0, 1]], "calls": [
             {"add": [], "remove": [], "phi": [1, 1], "rs": [[1, 2]]},
@@ -123,6 +126,14 @@ def generate(rng, tier):
                 c["add"], c["remove"] = add, rem
                 calls.append(c)
         yield {"nodes": nodes, "edges": edges, "calls": calls}
+        if i % 5 == 4 and edges:
+            # the same network as an nx.MultiGraph with some bonds doubled / tripled (parallel bonds are separate
+            # bonds: each is retained independently; `g.copy()` keeps them, `nx.Graph(g)` would merge them)
+            medges = [list(e) for e in edges]
+            for _ in range(rng.randint(1, 3)):
+                e = rng.choice(edges)
+                medges.insert(rng.randint(0, len(medges)), list(e) if rng.random() < 0.5 else [e[1], e[0]])
+            yield {"nodes": nodes, "edges": medges, "calls": [_call(rng, medges)], "multi": 1}
     # all below / at / above patterns on small graphs
     small = [([0, 1, 2], [[0, 1], [1, 2], [0, 2]]), ([0, 1, 2, 3], [[0, 1], [0, 2], [0, 3]]),
              ([0, 1, 2, 3], [[0, 1], [2, 3]]), ([3, 1, 2, 0], [[0, 1], [1, 2], [2, 3], [3, 0]])]
@@ -155,7 +166,7 @@ def impl(case):
     lab = _lab(case)
     inv = {lab(i): i for i in set(case["nodes"]) | {v for e in case["edges"] for v in e}
            | {v for c in case["calls"] for e in c["add"] for v in e}}
-    g = nx.Graph(name="input")
+    g = nx.MultiGraph(name="input") if case.get("multi") else nx.Graph(name="input")
     for v in case["nodes"]:
         g.add_node(lab(v), tag="n%d" % v)
     for i, e in enumerate(case["edges"]):
